@@ -2,6 +2,7 @@ import Driver.CacheDrv
 import Driver.TableDrv
 import Driver.Lin
 import Driver.TraceProto
+import Driver.TraceCache
 import CacheVerif.Model.CacheOf
 import CacheVerif.Spec.TTL
 /-!
@@ -136,6 +137,9 @@ def main (args : List String) : IO Unit := do
   let stderr ← IO.getStderr
   if args.contains "--trace-proto" then
     Driver.traceLoop stdin stdout "" none []
+    return
+  if args.contains "--trace-cache" then
+    Driver.traceCacheLoop stdin stdout "" none []
     return
   if args.contains "--lin" then
     Driver.linLoop stdin stdout {}
